@@ -84,6 +84,24 @@ PROPS = {
                         "vectors longer than 2 entries."),
         "trusted_base": [KANI_TRUST, VERUS_TRUST, OS_TRUST],
     },
+    "C08": {
+        "level": "other",
+        "design_ref": "DESIGN.md section 0.4, C08",
+        "summary": ("Depth is bounded or probed wherever the interpreter recurses, as far as contracts can say it (Verus, unit nesting_guard).  "
+                    "PARSER: both recursive entry points (parse_expression, parse_block_body) enter the descent only while fewer than "
+                    "MAX_PARSE_NESTING activations are open, restore the counter, and at the limit give up with one diagnostic instead of descending.  "
+                    "TREE: one step of the explicit-stack depth measurement (find_too_deep, over the real Expr and Stmt enums) reports a node deeper "
+                    "than MAX_TREE_DEPTH and otherwise pushes EVERY node directly below the current one exactly one level deeper, so the resolver, "
+                    "the analysis passes and the evaluator never see a tree deeper than that -- including the left-deep trees long operator chains "
+                    "build without any nesting in the source.  RUNTIME: check_stack reports StackOverflow exactly when the stack has grown more "
+                    "than STACK_BUDGET below the base recorded at run entry, and every activation of eval_expr probes before it does anything else."),
+        "not_covered": ("frame sizes: that 256 parser activations, a 512-deep tree walked by the resolver / analysis passes and a 4 MiB evaluator budget "
+                        "fit an 8 MiB stack in debug and release builds is measured (DESIGN.md 0.5: the unguarded tree overflowed at about 1500 levels "
+                        "in a debug build), not proved -- neither verifier has a notion of frame size; that the measurement loop visits every entry it "
+                        "pushed (one step is decided, the loop is a stack pop); recursion over run-time DATA (clone_into / promote / drop / display of "
+                        "deeply nested arrays is not probed); arena exhaustion."),
+        "trusted_base": [VERUS_TRUST, OS_TRUST, "the address of a local is (about) the stack pointer and the stack grows downwards"],
+    },
     "C15": {
         "level": "other",
         "design_ref": "DESIGN.md section 5, C15",
@@ -297,5 +315,4 @@ PROPS = {
 
 NOT_APPLICABLE = {
     "C01": "whole-program equivalence with the documented semantics (printed sequence and manner of ending for EVERY accepted program): no per-function contract carries it -- evaluation order, precedence and the arithmetic kernel are properties of the parser/evaluator recursion as a whole, and a bounded run of the evaluator is out of reach of both verifiers. Fragments of it ARE decided, under the properties whose checks own them: which evaluator arm runs for every operator x runtime types and its result type, exact and/or/not/condition truthiness (C06 unit eval_ops), that statically well-typed operand combinations are never rejected and inferred types are sound (C09 unit static_rules), find/replace/slice results (C13)",
-    "C08": "about native stack bytes between guard points under two compiler profiles; neither verifier has a notion of frame sizes",
 }
